@@ -2,6 +2,8 @@ package path
 
 import (
 	"errors"
+	"fmt"
+	"strings"
 )
 
 func build(source string, parsed any) PropertyPath {
@@ -52,9 +54,16 @@ func ParsePath(path string) (PropertyPath, error) {
 			},
 		}, nil
 	}
-	parsed, err := Parse("", []byte(path))
+	// the grammar has no end-of-input anchor: parse, then require that everything but surrounding
+	// whitespace has been consumed, otherwise `a / / b` or `a ) junk` would silently mean `a`
+	data := []byte(strings.Trim(path, " \n\t\r"))
+	p := newParser("", data)
+	parsed, err := p.parse(g)
 	if err != nil {
-		panic(err)
+		return nil, err
+	}
+	if p.pt.offset < len(data) {
+		return nil, fmt.Errorf("unexpected %q at offset %d of property path %q", string(data[p.pt.offset:]), p.pt.offset, path)
 	}
 
 	propertyPath := build(path, parsed)
